@@ -1,5 +1,8 @@
 #!/bin/bash
-# evaluate every delivered round-2 change (/tmp/mut2/<ID>/mN/patch.diff) against its own property's check
+# usage: eval_round2.sh [<sa binary>] [cross]
+# Evaluates every delivered round-2 change (/tmp/mut2/<ID>/mN/patch.diff) against its own property's check;
+# with "cross", a change its own check does not report is also run against the other 19 checks.
+SA=${1:-/verif/bin/sa}; CROSS=${2:-}
 cd /verif; mkdir -p /tmp/trypatch_out
 for d in /tmp/mut2/C*/m[0-9]; do
   [ -f $d/patch.diff ] || continue
@@ -7,8 +10,16 @@ for d in /tmp/mut2/C*/m[0-9]; do
   cd /repo; git diff --quiet || { echo "/repo dirty"; exit 2; }
   if ! git apply $d/patch.diff 2>/dev/null; then echo "$id-$m PATCH-DOES-NOT-APPLY"; continue; fi
   cd /verif; cp known_findings.json /tmp/trypatch_out/
-  out=$(./bin/sa check $id --verif /tmp/trypatch_out 2>&1); code=$?
+  out=$($SA check $id --verif /tmp/trypatch_out 2>&1); code=$?
   rules=$(echo "$out" | grep -E "^  C[0-9]+\." | awk '{print $1}' | sort -u | tr '\n' ' ')
-  echo "$id-$m exit=$code $rules"
+  line="$id-$m own_exit=$code $rules"
+  if [ $code -eq 0 ] && [ -n "$CROSS" ]; then
+    for i in $(seq -w 1 20); do
+      [ C$i = $id ] && continue
+      o2=$($SA check C$i --verif /tmp/trypatch_out 2>&1); c2=$?
+      [ $c2 -ne 0 ] && line="$line | C$i:$(echo "$o2" | grep -E '^  C[0-9]+\.' | awk '{print $1}' | sort -u | tr '\n' ',')"
+    done
+  fi
+  echo "$line"
   git -C /repo checkout -- .
 done
